@@ -79,7 +79,7 @@ package activitypub
 //@                  (= (field (at n j) Ref) (field (at with k) Ref))
 //@                  (bytesEq (field (at n j) Value) (field (at with k) Value))))))
 //@ loop 1
-//@   invariant (and (<= -1 rangeindex) (< rangeindex (len n)) (not found))
+//@   invariant (and (<= -1 rangeindex) (< rangeindex (len n)))
 //@   invariant (and (<= -1 rangeindex^) (< (+ rangeindex^ 1) (len with)) (= (len n) (len with)))
 //@   invariant (forall (k) (=> (and (<= 0 k) (<= k rangeindex^))
 //@               (exists (j) (and (<= 0 j) (< j (len n))
